@@ -38,6 +38,15 @@ func VerifDir() string {
 	return "/verif"
 }
 
+// OutDir is where evidence/ and replays/ are written: VERIF_OUT_DIR if set (mutation self-tests must not
+// overwrite the evidence of the unchanged tree), else VerifDir().
+func OutDir() string {
+	if d := os.Getenv("VERIF_OUT_DIR"); d != "" {
+		return d
+	}
+	return VerifDir()
+}
+
 // Check describes one property check.
 type Check struct {
 	ID          string   // "C28"
@@ -362,7 +371,7 @@ func loadKnown(id string) map[string]knownFinding {
 
 func parentMain(t *testing.T, chk *Check, tier string, seed int64, budget time.Duration) {
 	start := time.Now()
-	os.RemoveAll(filepath.Join(VerifDir(), "replays", chk.ID)) // replay files of earlier runs are stale
+	os.RemoveAll(filepath.Join(OutDir(), "replays", chk.ID)) // replay files of earlier runs are stale
 	nw := chk.Workers
 	if nw == 0 {
 		nw = 16
@@ -546,7 +555,7 @@ func parentMain(t *testing.T, chk *Check, tier string, seed int64, budget time.D
 				lines = append(lines, fmt.Sprintf("VIOLATION property=%s replay=%s", chk.ID, path))
 				lines = append(lines, fmt.Sprintf("  class=%s cases=%d: %s", sig, v.Count, trunc(v.Summary, 600)))
 			} else if confirmed == 9 {
-				lines = append(lines, "  (further violation classes: see the evidence file and "+filepath.Join(VerifDir(), "replays", chk.ID)+")")
+				lines = append(lines, "  (further violation classes: see the evidence file and "+filepath.Join(OutDir(), "replays", chk.ID)+")")
 			}
 			entry["replay"] = path
 		}
@@ -605,8 +614,8 @@ func parentMain(t *testing.T, chk *Check, tier string, seed int64, budget time.D
 		ev["assumptions"] = []string{}
 	}
 	b, _ := json.MarshalIndent(ev, "", " ")
-	os.MkdirAll(filepath.Join(VerifDir(), "evidence"), 0o755)
-	if err := os.WriteFile(filepath.Join(VerifDir(), "evidence", chk.ID+".json"), append(b, '\n'), 0o644); err != nil {
+	os.MkdirAll(filepath.Join(OutDir(), "evidence"), 0o755)
+	if err := os.WriteFile(filepath.Join(OutDir(), "evidence", chk.ID+".json"), append(b, '\n'), 0o644); err != nil {
 		fmt.Println("cannot write evidence:", err)
 	}
 	for _, e := range harnessErrs {
@@ -676,7 +685,7 @@ func topOutcomes(m map[string]int64, n int) map[string]int64 {
 var sanRe = regexp.MustCompile(`[^A-Za-z0-9._-]+`)
 
 func writeReplay(id, sig string, v *Violation) string {
-	dir := filepath.Join(VerifDir(), "replays", id)
+	dir := filepath.Join(OutDir(), "replays", id)
 	os.MkdirAll(dir, 0o755)
 	name := sanRe.ReplaceAllString(sig, "_")
 	if len(name) > 100 {
